@@ -32,4 +32,6 @@ def run(rep, fb, tier):
     _bd.rule_exception_unthrown(rep, fb)
     _bd.rule_binding_isinstance_order(rep, fb)
     _l3.rule_index_form_arms(rep, fb)
+    __import__("vf.rules.pyrules", fromlist=["x"]).rule_py_dead_attr(rep)
+    __import__("vf.rules.binding2", fromlist=["x"]).rule_binding_call_roles(rep, fb)
     rep.units = fb.units
